@@ -1124,7 +1124,7 @@ def rule_clip_flag(rep, fb, floor=14, name="FORWARD.clip-flag"):
 def rule_record_rebuild_length(rep, fb, floor=8, name="REBUILD.record-length"):
     r = rep.rule(name, "a RecordArray method that applies an (axis, depth) operation, fillna or a dtype conversion to each field and wraps the results in a new RecordArray passes an explicit length "
                  "(length_ or the operation's own output length), unless every field was first trimmed to length(): the 4-argument constructor takes the minimum field length, and fields may be longer than the record array", floor=floor)
-    names = ("num", "rpad", "rpad_and_clip", "localindex", "combinations", "offsets_and_flattened", "fillna", "numbers_to_type", "reduce_next", "sort_next", "argsort_next")
+    names = ("num", "rpad", "rpad_and_clip", "localindex", "combinations", "offsets_and_flattened", "fillna", "numbers_to_type", "reduce_next", "sort_next", "argsort_next", "getitem_next")
     for f in fb.lib_funcs(inst=False):
         if (f.get("cls") or "") != "RecordArray" or f["name"] not in names:
             continue
@@ -1676,4 +1676,44 @@ def rule_raw_base_pointer(rep, fb, floor=2, name="NUMPY.raw-base"):
             whole = "copy_to" in nm or nm.endswith("lib_tostring")   # whole-buffer copy; lib_tostring only reports which device owns the allocation
             r.check(withoff or whole, "%s#%s#%d" % (f["qual"], nm.replace("kernel::", ""), n), "%s:%d" % (f["file"], c[-1] if isinstance(c[-1], int) else f["line"]),
                     "%s passes ptr_.get() - the start of the shared buffer, byteoffset_ not applied - to %s" % (f["qual"], nm), detail="byteoffset_ applied or whole-buffer copy")
+    return r.done()
+
+
+# ------------------------------------------------------------------------------------------------
+# L-34  the advanced index is projected together with the content it indexes into
+
+def rule_advanced_projected(rep, fb, floor=3, name="ORIGIN.advanced-projected"):
+    r = rep.rule(name, "in getitem_next of the classes that drop items before descending (option types project away the missing values with nextcarry_outindex, unions project each content), the `advanced` index "
+                 "handed to the projected content is projected too, never the caller's `advanced` itself: it has one entry per item of the unprojected node", floor=floor)
+    for f in fb.lib_funcs(inst=False):
+        if f["name"] != "getitem_next" or "advanced" not in [p[0] for p in f["params"]]:
+            continue
+        projects = bool(find_all(f["body"], lambda k: k[0] == "mcall" and k[1] in ("nextcarry_outindex", "project")))
+        if not projects:
+            continue
+        n = [0]
+
+        def onblock(stmts, cont, f=f):
+            for i, st in enumerate(stmts):
+                for m in find_all(tuple(cs.head_exprs(st)), lambda k: k[0] == "mcall" and k[1] == "getitem_next" and len(k[4]) == 3):
+                    decls = cs.scoped_defs(cs._PseudoSite(f, stmts, i, cont))
+                    rv = [v[1] for v in find_all((m[3],), lambda k: k[0] == "var")]
+                    derived = False
+                    for v in rv:
+                        for d in decls.get(v) or []:
+                            if d[3] is None:
+                                continue
+                            if find_all((d[3],), lambda k: k[0] == "mcall" and k[1] == "project"):
+                                derived = True
+                            for c in find_all((d[3],), lambda k: k[0] == "mcall" and k[1] == "carry" and k[4]):
+                                for x in [x[1] for x in find_all((c[4][0],), lambda k: k[0] == "var")]:
+                                    for dd in decls.get(x) or []:
+                                        if dd[3] is not None and find_all((dd[3],), lambda k: (k[0] == "mcall" and k[1] == "nextcarry_outindex") or (k[0] == "member" and k[2] == "first")):
+                                            derived = True
+                    if not derived:
+                        continue
+                    n[0] += 1
+                    r.check(m[4][2] != ("var", "advanced"), "%s#getitem_next#%d" % (f["qual"], n[0]), "%s:%d" % (f["file"], m[-1]),
+                            "%s hands the caller's `advanced` unchanged to content from which items have been projected away: below this node index k is paired with the wrong row" % f["qual"], detail="projected advanced index")
+        cs.each_block_cont(f["body"], onblock)
     return r.done()
